@@ -177,9 +177,10 @@ Section DriverWf.
     - destruct (u_upd U) as [u|] eqn:Eu; [|apply wf_ret].
       apply wf_bind; [apply wf_call; [reflexivity|eapply upd_total; eauto]|]. intros [[[a1 a2] a3] a4]. apply wf_ret.
     - intros [[[[f1 fo] g1] G1] filt].
+      destruct (if filt then _ else _) as [X1 G2].
       destruct (is_f0_target_reached _ _); [apply wf_ret|].
       destruct (is_f0_min_change_reached _ _ _); [apply wf_ret|].
-      destruct (if filt then _ else _) as [X1 G2]. destruct (update_mem K c _ _ _ _ _) as [[X2 G3] m2].
+      destruct (update_mem K c _ _ _ _ _) as [[X2 G3] m2].
       destruct (u_cb U) as [cb|] eqn:Ec; [|apply wf_ret].
       apply wf_bind; [apply wf_call; [reflexivity|eapply cb_total; eauto]|]. intros b. destruct b; apply wf_ret.
   Qed.
@@ -220,7 +221,8 @@ Section DriverWf.
     { destruct (u_upd U) as [u|] eqn:Eu; [|apply wf_ret].
       apply wf_bind; [apply wf_call; [reflexivity|eapply upd_total; eauto]|]. intros [[[a1 a2] a3] a4]. apply wf_ret. }
     intros [[f1 g1] G1].
-    destruct (match X with [] => _ | _ => _ end) as [[X1 G2] m1].
+    destruct (match u_upd U with Some _ => _ | None => _ end) as [X' G'].
+    destruct (match X' with [] => _ | _ => _ end) as [[X1 G2] m1].
     apply wf_bind; [apply wf_loop|]. intros s. apply wf_ret.
   Qed.
 End DriverWf.
